@@ -23,4 +23,10 @@ def convert_code_string(code: str, filename="<string>", configs: Configs | None 
     if configs.unparser == "oneliner":
         return expr_unparse(out)
     else:
-        return ast.unparse(out).replace("\n", "")
+        text = ast.unparse(out)
+        if "\n" in text:
+            # only a triple-quoted string literal can contain a line break
+            # (ast.unparse writes one inside an f-string when the string needs
+            # an escape); removing the break would change the string
+            text = expr_unparse(out)
+        return text
